@@ -278,7 +278,7 @@ def stoch_cell(chk, drv, df, cfg, refs, dsid, rec):
 
 
 def run_iptw_family(chk, drv, rng, tier):
-    nds = 3 if tier == 'quick' else 14
+    nds = 6 if tier == 'quick' else 24
     for i in range(nds):
         df = relabel(mixed_dataset(rng), rng, ['default', 'shifted', 'shuffled'][i % 3])
         rec = {'frame': gen.frame_record(df), 'n': len(df)}
@@ -307,7 +307,7 @@ def run_iptw_family(chk, drv, rng, tier):
                 ps = [float(v) for v in np.round(rng.uniform(0, 1, size=len(cs)), 2)]
                 stoch_cell(chk, drv, df, dict(weights=wcol, p=ps, conditional=cs, denominator=denom), refs, dsid, rec)
     # outcome missingness weights
-    for i in range(2 if tier == 'quick' else 10):
+    for i in range(4 if tier == 'quick' else 16):
         df = relabel(mixed_dataset(rng, missing=True), rng, ['shuffled', 'default', 'shifted'][i % 3])
         rec = {'frame': gen.frame_record(df), 'n': len(df)}
         for stab, numer in ((False, None), (True, None), (True, 'A + L2')):
@@ -471,7 +471,7 @@ def ipmw_malformed(chk, drv, rng):
 
 
 def run_ipmw(chk, drv, rng, tier):
-    reps = 1 if tier == 'quick' else 5
+    reps = 2 if tier == 'quick' else 8
     idxs = ['default', 'shifted', 'shuffled']
     t = 0
     for _ in range(reps):
@@ -664,7 +664,7 @@ def ipcw_flat_cell(chk, drv, df, cfg, dsid, rec):
 
 
 def run_ipcw(chk, drv, rng, tier):
-    reps = 4 if tier == 'quick' else 25
+    reps = 10 if tier == 'quick' else 50
     for i in range(reps):
         base = long_dataset(rng)
         for order in ('sorted', 'shuffled'):
@@ -676,7 +676,7 @@ def run_ipcw(chk, drv, rng, tier):
                 rec = {'frame': gen.frame_record(df), 'rows': len(df)}
                 ipcw_cell(chk, drv, df, dict(order=order, index=how, denominator='t + L + x', numerator='t'),
                           frame_hash(df), rec)
-    for i in range(3 if tier == 'quick' else 15):
+    for i in range(6 if tier == 'quick' else 30):
         how = ['default', 'shifted', 'shuffled'][i % 3]
         df = relabel(flat_dataset(rng), rng, how)
         ipcw_flat_cell(chk, drv, df, dict(index=how), frame_hash(df), {'frame': gen.frame_record(df), 'rows': len(df)})
